@@ -38,7 +38,10 @@ LEVEL_TEXT = ("Proof: for every well-formed file (decidable predicate; any cell 
               "idempotent inside, fraction >= 0 and weakly increasing in the test date, and within 2e-10 of the exact fraction of the "
               "period elapsed at the end of the test day for every period >= 31 days (2e-9 for >= 2 days), all datetimes "
               "0001..9999, the last day of the period included. Tied to the code by generated files.")
-LEVEL_NOTE = ("The region's point lookup and bin1d_vec are modelled by their exact half-open meaning (C01/C02 treat the float bin "
+LEVEL_NOTE = ("Round 6: the quadtree loaders are modelled statement by statement from the characters of the file (genfromtxt string "
+              "table, str -> float64 cast = float(), negative column indices, first-appearance uniqueness, reshape) and proved to be "
+              "the Cartesian loader on the boxes of the quadkeys (loadQuadRows_eq_load); the fraction bound covers one-day periods. "
+              "The region's point lookup and bin1d_vec are modelled by their exact half-open meaning (C01/C02 treat the float bin "
               "formula); probes within 1e-10 relative below an edge may go either way. numpy.loadtxt is modelled for the "
               "Cartesian .dat layout (ASCII digits, no infinities / NaN; the sign of a zero is not represented); "
               "numpy.genfromtxt of the quadtree layouts, mercantile tile bounds and the decimal-year arithmetic are inputs "
@@ -83,7 +86,10 @@ THEOREMS = ["ForecastFile.load_eq", "ForecastFile.load_some_of_wellFormed", "For
             "ForecastFile.test_date_idempotent", "ForecastFile.test_date_forgets_scale", "ForecastFile.test_date_rates",
             "ForecastFile.fore_dur_pos", "ForecastFile.test_date_fraction_nonneg", "ForecastFile.test_date_fraction_mono",
             "ForecastFile.test_date_fraction_exact_range", "ForecastFile.test_date_fraction_close_aux",
-            "ForecastFile.test_date_fraction_close", "ForecastFile.test_date_fraction_close_short"]
+            "ForecastFile.test_date_fraction_close", "ForecastFile.test_date_fraction_close_short",
+            # round 6: the quadtree loaders statement by statement, the option handling as one decision table
+            "ForecastFile.loadQuadRows_eq_load", "ForecastFile.quadCsv_shape", "ForecastFile.exQ_same",
+            "ForecastFile.firstFlag_all_one", "ForecastFile.Text.dispatch_table"]
 TRUSTED = ["Lean 4.33 kernel", "axioms: propext, Classical.choice, Quot.sound at most",
            "numpy.loadtxt is MODELLED (Model/DecimalText.lean: lines, '#' comments, blank-separated tokens, strtod grammar, "
            "round-to-nearest-even) and compared with numpy on every Cartesian file and on ~4000 single tokens per run; "
@@ -122,7 +128,15 @@ RULE = ("generated files: decimal lattices (7 spacings, negative / positive / ze
         "at any second / microsecond, 1 us inside either end, on and beyond the ends: the factor set is compared bit for bit "
         "with the model's binary64 computation (c11_date); reads include get_rates(ret_inds=True) "
         "and get_rates(data=A); 60 option combinations of load_gridded_forecast (extension x existence x loader kind); "
-        "~4000 decimal tokens (good spellings, malformed, halfway cases) against float() / int() / numpy.loadtxt / repr. A file is "
+        "~4000 decimal tokens (good spellings, malformed, halfway cases) against float() / int() / numpy.loadtxt / repr. Round 6: "
+        "every quadtree file is also given to the statement-level model of its loader as characters (c11_qascii / c11_qcsv: "
+        "quadkeys in order, magnitudes, rate array; 40 % in other float() spellings); one file per run beyond 2^16 rows "
+        "(oracle only); 5 % of the Cartesian files have ONE cell with >= 2 magnitude bins; every call in several forms "
+        "(positional / keyword / explicit defaults, a bare file name relative to the cwd); rates -0.0 and subnormal, edges "
+        "written 0.0 in some rows and -0.0 in others, integer factors beyond 2^53, scale(val=), factor -0.0; arrays the caller "
+        "hands over (lookup points, get_rates(data=), ndarray factors, from_custom data) must stay byte-identical; arrays the "
+        "library RETURNS (data, get_rates, both spatial layouts, magnitude_counts, target_event_rates) are overwritten in place "
+        "before every second check of the views; one case in eight runs with numeric / user warnings as errors. A file is "
         "non-trivial when it has >= 2 cells and >= 2 magnitude bins or a hole or a zero flag; distinct by (rows, ops).")
 
 EPS_BAND = Fraction(1, 10 ** 10)
@@ -164,7 +178,7 @@ def gen_rate(rng):
     if k < 0.1:
         return 0.0
     if k < 0.2:
-        return float(rng.choice([1e-12, 5e-324, 1.0, 2.5e-5, 1e-300]))
+        return float(rng.choice([1e-12, 5e-324, 1.0, 2.5e-5, 1e-300, -0.0, 1e-310, 2.2250738585072014e-308, 1.5e-323, 4.9e-320]))
     return 10 ** rng.uniform(-8, 1) * rng.random()
 
 
@@ -205,8 +219,9 @@ def gen_ops(rng):
                 # array, a numpy scalar (the array is rebuilt from the seed when the case is run)
                 ops.append(["s", "arr:" + rng.choice(ARRAY_KINDS) + ":%d" % rng.randrange(10 ** 6)])
                 continue
-            v = rng.choice([0.5, 2.0, 1.0, 0.0, 1e-3, 3.0, 0.1, rng.uniform(0, 5), 2, 1, 7])
-            ops.append(["s", "int:%d" % v if isinstance(v, int) else hx(v)])
+            v = rng.choice([0.5, 2.0, 1.0, 0.0, 1e-3, 3.0, 0.1, rng.uniform(0, 5), 2, 1, 7, 2 ** 53 + 1, 2 ** 63 - 1, -0.0, 5e-324,
+                            "kw:" + hx(rng.choice([0.25, 4.0, 1.0]))])
+            ops.append(["s", v if isinstance(v, str) else ("int:%d" % v if isinstance(v, int) else hx(v))])
         else:
             k = rng.random()
             if k < 0.45:
@@ -241,20 +256,28 @@ def gen_cart_case(rng, tier):
     i0 = rng.choice([0, -3, rng.randrange(-int(170 / h), int(170 / h) - 8)])
     j0 = rng.choice([0, -2, rng.randrange(-int(80 / h), int(80 / h) - 8)])
     nx, ny = rng.choice([1, 2, 3, 4, 6]), rng.choice([1, 2, 3, 4, 6])
+    one_cell = rng.random() < 0.05          # ONE spatial cell (with whatever number of magnitude bins comes below)
+    if one_cell:
+        nx = ny = 1
     cells = [(i, j) for i in range(nx) for j in range(ny)]
     if len(cells) > 2 and rng.random() < 0.5:
         cells = [c for c in cells if rng.random() < 0.8] or cells[:1]
     if rng.random() < 0.6:
         rng.shuffle(cells)
     m0, m1 = gen_mags(rng)
+    while one_cell and len(m0) < 2:
+        m0, m1 = gen_mags(rng)
     swap = rng.random() < 0.35
     z0, z1 = 0.0, rng.choice([30.0, 70.0])
+    negzero = rng.random() < 0.3
     rows = []
     for (i, j) in cells:
         flag = 0 if rng.random() < 0.2 else 1
         lon0, lon1 = dec_grid(i0 + i, step), dec_grid(i0 + i + 1, step)
         lat0, lat1 = dec_grid(j0 + j, step), dec_grid(j0 + j + 1, step)
         for a, b in zip(m0, m1):
+            if negzero:       # an edge that is zero is written as 0.0 in some rows and -0.0 in others: the same number
+                lon0, lon1, lat0, lat1 = (rng.choice([-0.0, 0.0, -0.0]) if v_ == 0 else v_ for v_ in (lon0, lon1, lat0, lat1))
             first4 = [lat0, lat1, lon0, lon1] if swap else [lon0, lon1, lat0, lat1]
             rows.append([hx(v) for v in first4 + [z0, z1, a, b, gen_rate(rng)]] + [flag])
     start, end, ops = gen_ops(rng)
@@ -275,6 +298,37 @@ def gen_cart_case(rng, tier):
         ext = ".dat" if kind == "default" else rng.choice([".dat", ".txt", ".forecast", "", ".DAT", ".dat.bak", ".csv"])
         case["via"] = dict(kind=kind, fname=stem + ext)
     case["probes"] = gen_probes(rng, case, tier)
+    case["callform"] = rng.randrange(12)
+    return case
+
+
+def gen_big_cart_case(rng, tier):
+    """a file with more than 2^16 rows (about 60 x 60 cells x 18..20 magnitude bins; the row count lands just above 65 536 or
+    near 70 000 / 100 000): judged by the exact oracle only — the Lean model's first-appearance de-duplication is quadratic"""
+    step = rng.choice(["0.1", "0.5", "0.25"])
+    target = rng.choice([65537, 65540, 66000, 70001, 100003])
+    M = rng.choice([17, 18, 19, 20])
+    ncell = -(-target // M)
+    nx = rng.randint(50, 64)
+    ny = -(-ncell // nx)
+    i0, j0 = rng.choice([0, -30, -1200]), rng.choice([0, -20, 100])
+    cells = [(i, j) for i in range(nx) for j in range(ny)][:ncell]
+    if rng.random() < 0.5:
+        rng.shuffle(cells)
+    m0 = [dec_grid(40 + j, "0.1") for j in range(M)]
+    m1 = [dec_grid(41 + j, "0.1") for j in range(M)]
+    rows = []
+    for (i, j) in cells:
+        flag = 0 if rng.random() < 0.02 else 1
+        lon0, lon1 = dec_grid(i0 + i, step), dec_grid(i0 + i + 1, step)
+        lat0, lat1 = dec_grid(j0 + j, step), dec_grid(j0 + j + 1, step)
+        for a, b in zip(m0, m1):
+            rows.append([hx(v) for v in [lon0, lon1, lat0, lat1, 0.0, 30.0, a, b, gen_rate(rng)]] + [flag])
+    start, end, ops = gen_ops(rng)
+    case = dict(layout="cart", swap=False, rows=rows, fmt="repr", start=start, end=end, ops=ops[:3], malformed=None, aware=False,
+                oracle_only=True)
+    case["probes"] = gen_probes(rng, case, tier)
+    case["callform"] = rng.randrange(12)
     return case
 
 
@@ -379,7 +433,8 @@ def gen_quad_case(rng, tier, layout):
             rows.append([hx(v) for v in [b[0], b[2], b[1], b[3], 0.0, 30.0, a, c, gen_rate(rng)]] + [1])
             qk.append(q)
     start, end, ops = gen_ops(rng)
-    case = dict(layout=layout, swap=False, rows=rows, qk=qk, fmt="repr", start=start, end=end, ops=ops, malformed=None)
+    case = dict(layout=layout, swap=False, rows=rows, qk=qk, fmt="repr", start=start, end=end, ops=ops, malformed=None,
+                qspell=rng.random() < 0.4)
     case["probes"] = gen_probes(rng, case, tier)
     return case
 
@@ -515,6 +570,8 @@ class Oracle:
         self.mag_edges = [Fraction(m) for m in self.mags]
         self.band = case["layout"] == "cart"
         self.fcells = [(tuple(Fraction(v) for v in c), c) for c in self.cells]
+        # every bound and every probe coordinate is a binary64 value: float comparisons ARE the exact comparisons
+        self.arr = numpy.array(list(self.cells), dtype=float) if len(self.cells) > 150 else None
 
     def positions(self, dlo, dhi):
         """(ny, nx, [(iy, ix) per cell in file order]) of the bounding-box (map) layout: the lattice spanned by the cells'
@@ -538,10 +595,15 @@ class Oracle:
     def exact(self, lon, lat, m):
         """'x' (outside / flagged / below the first magnitude) or the rate (float) of the box containing the probe"""
         hit = None
-        for fc, c in self.fcells:
-            if fc[0] <= lon < fc[1] and fc[2] <= lat < fc[3]:
-                hit = c
-                break
+        if self.arr is not None and Fraction(float(lon)) == lon and Fraction(float(lat)) == lat:
+            x, y = float(lon), float(lat)
+            w = numpy.nonzero((self.arr[:, 0] <= x) & (x < self.arr[:, 1]) & (self.arr[:, 2] <= y) & (y < self.arr[:, 3]))[0]
+            hit = self.order[int(w[0])] if len(w) else None
+        else:
+            for fc, c in self.fcells:
+                if fc[0] <= lon < fc[1] and fc[2] <= lat < fc[3]:
+                    hit = c
+                    break
         if hit is None or self.cells[hit] != 1:
             return "x"
         if m < self.mag_edges[0]:
@@ -581,6 +643,20 @@ class Oracle:
         return res
 
 
+# arrays that belong to the caller (lookup points, an array handed to get_rates(data=), an ndarray scale factor, the data array
+# given to from_custom): (array, copy taken when it was handed over, what it is); the library may keep a reference, never write
+OWNED = []
+QUAD_ASKS = []
+
+
+def owned_intact(run, case):
+    for arr, cp, what in OWNED:
+        if arr.shape != cp.shape or arr.dtype != cp.dtype or arr.tobytes() != cp.tobytes():
+            run.oracle_failure(case, f"the library modified an array that belongs to the caller: {what} (history {case['ops']})")
+            return False
+    return True
+
+
 # ----------------------------------------------------------------------------- state shared between loads
 # Forecasts loaded earlier in the same process stay alive and are looked at again after every later load: a forecast's
 # magnitudes and rates are its own file's, whatever else has been loaded since (same cells with other magnitude bins, ...)
@@ -602,7 +678,7 @@ def sibling_case(rng, case, tier):
     """another file on exactly the same cells (bounds, order, flags, column order, cell size) with other magnitude bins / rates"""
     seen, first4 = set(), []
     for r in case["rows"]:
-        k = tuple(r[:4])
+        k = tuple(fh(x) for x in r[:4])     # by value: 0.0 and -0.0 are the same edge
         if k not in seen:
             seen.add(k)
             first4.append((r[:6], r[9]))
@@ -646,18 +722,29 @@ def write_file(case, tmpdir, tag):
                 f.write(sep.join(fmt_num(fh(x), case["fmt"]) for x in r[:9]) + sep + str(int(r[9])) + "\n")
         elif lay == "qascii":
             for q, r in zip(case["qk"], case["rows"]):
-                f.write(q + " " + " ".join(repr(fh(x)) for x in r[:9]) + "\n")
+                f.write(q + " " + " ".join(qspell(case, fh(x)) for x in r[:9]) + "\n")
         else:
             cells, table = cells_of(case)
             mags = sorted({k[1] for k in table})
-            f.write("quadkey,depth_min,depth_max," + ",".join(repr(m) for m in mags) + "\n")
+            f.write("quadkey,depth_min,depth_max," + ",".join(qspell(case, m) for m in mags) + "\n")
             seen = []
             for q in case["qk"]:
                 if q not in seen:
                     seen.append(q)
             for q, c in zip(seen, cells):
-                f.write(",".join([q, "0", "30"] + [repr(table[(c, m)][0]) for m in mags]) + "\n")
+                f.write(",".join([q, "0", "30"] + [qspell(case, table[(c, m)][0]) for m in mags]) + "\n")
     return fn
+
+
+def qspell(case, x):
+    """a number of a quadtree file: repr, or (files with case['qspell']) another spelling float() reads as the same double,
+    picked from the value itself"""
+    if not case.get("qspell"):
+        return repr(float(x))
+    import zlib
+    opts = [t for t in spellings(float(x)) if "," not in t and " " not in t]
+    t = opts[zlib.crc32(repr(float(x)).encode()) % len(opts)] if opts else repr(float(x))
+    return t if float(t) == float(x) else repr(float(x))
 
 
 def enc_rows(case):
@@ -665,6 +752,14 @@ def enc_rows(case):
 
 
 def load_impl(case, fn):
+    if case.get("callform", 0) % 5 == 4 and not case.get("relname"):
+        # the file given by its bare name, relative to the current directory
+        old = os.getcwd()
+        os.chdir(os.path.dirname(fn))
+        try:
+            return load_impl(dict(case, relname=True), os.path.basename(fn))
+        finally:
+            os.chdir(old)
     import csep
     from csep.core.forecasts import GriddedForecast
     from csep.utils import readers
@@ -682,14 +777,27 @@ def load_impl(case, fn):
                 return GriddedForecast.load_ascii(fname, **kw)
             fc = csep.load_gridded_forecast(fn, loader=my_loader, swap_latlon=case["swap"], start_date=start, end_date=end)
             return fc       # whether the keywords (swap_latlon, dates) reached the loader shows in the forecast itself
+        form = case.get("callform", 0)      # the same call written positionally / by keyword / with explicit defaults
         if via == "load_ascii":
-            return GriddedForecast.load_ascii(fn, start_date=start, end_date=end, swap_latlon=case["swap"])
+            return [lambda: GriddedForecast.load_ascii(fn, start_date=start, end_date=end, swap_latlon=case["swap"]),
+                    lambda: GriddedForecast.load_ascii(fn, start, end, None, case["swap"]),
+                    lambda: GriddedForecast.load_ascii(ascii_fname=fn, swap_latlon=case["swap"], end_date=end, start_date=start,
+                                                       name="given")][form % 3]()
         if via == "from_custom":
             def pieces(fname, swap):
                 f0 = GriddedForecast.load_ascii(fname, swap_latlon=swap)
-                return numpy.array(f0.data), f0.region, f0.magnitudes      # public attributes only
-            return GriddedForecast.from_custom(pieces, func_args=(fn, case["swap"]), start_time=start, end_time=end)
-        return csep.load_gridded_forecast(fn, swap_latlon=case["swap"], start_date=start, end_date=end)
+                arr = numpy.array(f0.data)
+                OWNED.append((arr, arr.copy(), "the data array handed to from_custom"))
+                return arr, f0.region, f0.magnitudes      # public attributes only
+            if form % 2:
+                return GriddedForecast.from_custom(func=pieces, func_args=(fn, case["swap"]), end_time=end, start_time=start)
+            return GriddedForecast.from_custom(pieces, (fn, case["swap"]), start_time=start, end_time=end)
+        return [lambda: csep.load_gridded_forecast(fn, swap_latlon=case["swap"], start_date=start, end_date=end),
+                lambda: csep.load_gridded_forecast(fn, None, swap_latlon=case["swap"], start_date=start, end_date=end),
+                lambda: csep.load_gridded_forecast(fname=fn, loader=None, end_date=end, start_date=start, swap_latlon=case["swap"],
+                                                   name=None),
+                lambda: csep.load_gridded_forecast(fn, start_date=start, end_date=end, name="given", **(
+                    dict(swap_latlon=True) if case["swap"] else {}))][form % 4]()
     loader = readers.quadtree_ascii_loader if case["layout"] == "qascii" else readers.quadtree_csv_loader
     return GriddedForecast.from_custom(loader, func_args=(fn,), start_time=start, end_time=end)
 
@@ -710,8 +818,10 @@ def probe_impl(fc, lon, lat, m):
 
 def run_case(run, drv, pending, case, tmpdir, tag, tier_quick=True):
     lay = case["layout"]
+    del OWNED[:]
     fn = write_file(case, tmpdir, tag)
-    text = open(fn, newline="").read() if lay == "cart" else None
+    text = open(fn, newline="").read() if lay == "cart" and not case.get("oracle_only") else None
+    qtext = open(fn, newline="").read() if lay != "cart" else None
     if case.get("fmt") == "lines":
         run.count("file-text:literal-lines" + (":" + repr(case.get("eol")) if case.get("eol") != "\n" else ""))
     orc = Oracle(case)
@@ -765,7 +875,7 @@ def run_case(run, drv, pending, case, tmpdir, tag, tier_quick=True):
         return
     for i, c in enumerate(orc.order):
         for k, m in enumerate(orc.mags):
-            if hx(base[i, k]) != hx(orc.table[(c, m)][0]):
+            if not base[i, k] == orc.table[(c, m)][0]:
                 run.oracle_failure(case, f"data[{i},{k}] = {base[i, k]!r} is not the rate {orc.table[(c, m)][0]!r} of its row")
                 return
     rates_col = [fh(r[8]) for r in rows]
@@ -798,7 +908,7 @@ def run_case(run, drv, pending, case, tmpdir, tag, tier_quick=True):
         got_c = [probe_impl(fc, float(a), float(b), float(m_)) for a, b, m_ in zip(cx, cy, cm)]
     run.count("probe:own-lower-corner-of-every-cell", len(want_c))
     for k_, (g_, w_) in enumerate(zip(got_c, want_c)):
-        if (g_ == "x") != (w_ == "x") or (w_ != "x" and hx(g_) != hx(w_)):
+        if (g_ == "x") != (w_ == "x") or (w_ != "x" and g_ != w_):
             c = orc.order[k_]
             run.oracle_failure(dict(case, probes=[[hx(c[0]), hx(c[2]), hx(orc.mags[0]), "corner"]]),
                                f"lookup at the lower corner lon={c[0]!r} lat={c[2]!r} mag={orc.mags[0]!r} written in the file for "
@@ -823,7 +933,7 @@ def run_case(run, drv, pending, case, tmpdir, tag, tier_quick=True):
         impl_rates.append(got)
         tagp = case["probes"][j][3]
         run.count("probe:" + tagp)
-        ok = any((got == a) if isinstance(a, str) or isinstance(got, str) else hx(got) == hx(a) for a in allowed[j])
+        ok = any(got == a for a in allowed[j])     # (floats: equal numbers; a rate of -0.0 is the rate 0)
         if not ok:
             run.oracle_failure(dict(case, probes=[case["probes"][j]]),
                                f"probe {tagp} at lon={p[0]!r} lat={p[1]!r} mag={p[2]!r}: get_rates gives {got!r}, "
@@ -860,7 +970,7 @@ def run_case(run, drv, pending, case, tmpdir, tag, tier_quick=True):
     def same(a_, b_):
         """bit for bit — or to 1e-9 once a factor had to be taken from exact arithmetic (no `_scale` to read)"""
         if not state["approx"]:
-            return hx(a_) == hx(b_)
+            return hx(a_) == hx(b_) or float(a_) == float(b_)
         return close(a_, b_)
     if lay == "cart" and layout is None:
         run.count("cartesian-layout:positions-unknown")
@@ -875,7 +985,7 @@ def run_case(run, drv, pending, case, tmpdir, tag, tier_quick=True):
     def cart_view():
         """spatial_counts(cartesian=True) as a float array; quadtree regions print and may refuse uncovered rasters"""
         if lay == "cart":
-            return numpy.array(fc.spatial_counts(cartesian=True), dtype=float)
+            return numpy.array(fc.spatial_counts(cartesian=True) if state.get("nlook", 0) % 2 else fc.spatial_counts(True), dtype=float)
         import contextlib, io
         if state["quad_off"]:
             return None
@@ -945,7 +1055,14 @@ def run_case(run, drv, pending, case, tmpdir, tag, tier_quick=True):
                 run.count("lookup with integer magnitudes")
             else:
                 qm = box(qm)
-            r = fc.get_rates(box([pts[j][0] for j in pts_in]), box([pts[j][1] for j in pts_in]), qm)
+            qx_, qy_ = box([pts[j][0] for j in pts_in]), box([pts[j][1] for j in pts_in])
+            for a_ in (qx_, qy_, qm):
+                if isinstance(a_, numpy.ndarray):
+                    OWNED.append((a_, a_.copy(), "a coordinate / magnitude array handed to get_rates"))
+            del OWNED[:-6]
+            r = [lambda: fc.get_rates(qx_, qy_, qm), lambda: fc.get_rates(lons=qx_, lats=qy_, mags=qm),
+                 lambda: fc.get_rates(qx_, qy_, qm, None, False), lambda: fc.get_rates(qx_, qy_, mags=qm, ret_inds=False, data=None)
+                 ][state["nlook"] % 4]()
             bad = [j for j, v in zip(pts_in, r) if not same(v, exp_rate(j))] if len(r) == len(pts_in) else ["length"]
         except Exception as e:
             bad = [f"{type(e).__name__}: {e}"]
@@ -962,7 +1079,25 @@ def run_case(run, drv, pending, case, tmpdir, tag, tier_quick=True):
             run.oracle_failure(case, f"{when}: reading the forecast raised {type(e).__name__}: {e} (history {case['ops']})")
             return False
 
+    def scribble():
+        """the caller overwrites, in place, every array a public call returns (data, get_rates, both layouts of the spatial
+        marginal, the magnitude marginal, target_event_rates): the forecast must not notice — each is the caller's own copy"""
+        outs = [fc.data, fc.spatial_counts(), fc.magnitude_counts()]
+        if lay == "cart":
+            outs.append(fc.spatial_counts(cartesian=True))
+        if pts_in:
+            gx_, gy_, gm_ = (numpy.array([pts[j][n_] for j in pts_in]) for n_ in range(3))
+            outs.append(fc.get_rates(gx_, gy_, gm_))
+            if state.get("nlook", 0) % 3 == 0:
+                outs.append(fc.target_event_rates(target_catalog(), scale=bool(state.get("nlook", 0) % 2))[0])
+        for o in outs:
+            if isinstance(o, numpy.ndarray) and o.ndim > 0 and o.flags.writeable and o.dtype.kind == "f":
+                o[...] = -7.25
+        run.count("returned arrays overwritten by the caller")
+
     def views_ok_(when):
+        if state.get("nlook", 0) % 2 == 0:
+            scribble()
         factor = state["factor"]
         want = base * factor
         data = snapshot()
@@ -984,7 +1119,7 @@ def run_case(run, drv, pending, case, tmpdir, tag, tier_quick=True):
             run.oracle_failure(case, f"{when}: marginals / event_count do not sum to the total: "
                                      f"{math.fsum(sc)!r} {math.fsum(mc)!r} {ec!r} {tot!r}")
             return False
-        return cart_ok(when, want) and lookups(when, factor)
+        return cart_ok(when, want) and lookups(when, factor) and owned_intact(run, case)
 
     def target_catalog():
         if state["cat"] is None:
@@ -998,7 +1133,9 @@ def run_case(run, drv, pending, case, tmpdir, tag, tier_quick=True):
         factor = state["factor"]
         want = base * factor
         if kind in ("tr1", "tr0"):
-            rates, nf = fc.target_event_rates(target_catalog(), scale=(kind == "tr1"))
+            rates, nf = fc.target_event_rates(target_catalog(), scale=(kind == "tr1")) if state.get("nlook", 0) % 2 else \
+                (fc.target_event_rates(target_catalog(), kind == "tr1") if state.get("nlook", 0) % 4 else
+                 fc.target_event_rates(scale=(kind == "tr1"), target_catalog=target_catalog()))
             div = days if kind == "tr1" else 1
             rates = [float(v) for v in numpy.asarray(rates, dtype=float)]
             exp = [exp_rate(j) / div for j in pts_in]
@@ -1016,8 +1153,8 @@ def run_case(run, drv, pending, case, tmpdir, tag, tier_quick=True):
             return dict(rates=rates), None
         if kind == "gri":
             # get_rates(..., ret_inds=True): the rates and WHERE they were read (cell index, magnitude index)
-            r, inds = fc.get_rates(numpy.array([pts[j][0] for j in pts_in]), numpy.array([pts[j][1] for j in pts_in]),
-                                   numpy.array([pts[j][2] for j in pts_in]), ret_inds=True)
+            gx_, gy_, gm_ = (numpy.array([pts[j][n_] for j in pts_in]) for n_ in range(3))
+            r, inds = fc.get_rates(gx_, gy_, gm_, ret_inds=True) if state.get("nlook", 0) % 2 else fc.get_rates(gx_, gy_, gm_, None, True)
             rates = [float(v) for v in r]
             if len(rates) != len(pts_in) or not all(same(v, exp_rate(j)) for v, j in zip(rates, pts_in)):
                 return None, f"get_rates(ret_inds=True) = {rates[:3]!r} is not base rate x {factor!r}"
@@ -1029,8 +1166,9 @@ def run_case(run, drv, pending, case, tmpdir, tag, tier_quick=True):
         if kind == "grd":
             # get_rates(..., data=A): the lookup is made in the array handed in, at the points' (cell, magnitude bin)
             arr = numpy.arange(base.size, dtype=float).reshape(base.shape) + 0.5
-            r = fc.get_rates(numpy.array([pts[j][0] for j in pts_in]), numpy.array([pts[j][1] for j in pts_in]),
-                             numpy.array([pts[j][2] for j in pts_in]), data=arr)
+            OWNED.append((arr, arr.copy(), "the array handed to get_rates(data=)"))
+            gx_, gy_, gm_ = (numpy.array([pts[j][n_] for j in pts_in]) for n_ in range(3))
+            r = fc.get_rates(gx_, gy_, gm_, data=arr) if state.get("nlook", 0) % 2 else fc.get_rates(gx_, gy_, gm_, arr)
             exp = [float(arr[orc.locate(*pts[j])]) for j in pts_in]
             if [float(v) for v in r] != exp:
                 return None, f"get_rates(data=A) = {[float(v) for v in r][:4]!r}, A at the points' bins = {exp[:4]!r}"
@@ -1039,7 +1177,8 @@ def run_case(run, drv, pending, case, tmpdir, tag, tier_quick=True):
             v = float(fc.sum() if kind == "sum" else fc.event_count)
             return (dict(total=v), None) if close(v, math.fsum(want.ravel())) else (None, f"{kind} = {v!r}, expected {math.fsum(want.ravel())!r}")
         if kind == "sc":
-            v = [float(t) for t in numpy.asarray(fc.spatial_counts(), dtype=float)]
+            v = [float(t) for t in numpy.asarray(fc.spatial_counts() if state.get("nlook", 0) % 2 else fc.spatial_counts(cartesian=False)
+                                                 if state.get("nlook", 0) % 4 else fc.spatial_counts(False), dtype=float)]
             exp = [math.fsum(want[i, :]) for i in range(want.shape[0])]
             return (dict(vals=v), None) if len(v) == len(exp) and all(close(a_, b_) for a_, b_ in zip(v, exp)) else \
                 (None, f"spatial_counts() = {v[:4]!r}, expected {exp[:4]!r}")
@@ -1112,12 +1251,15 @@ def run_case(run, drv, pending, case, tmpdir, tag, tier_quick=True):
         try:
             if op[0] == "t":
                 t_ = datetime.datetime.fromisoformat(op[1])
-                res_t = fc.scale_to_test_date(t_.replace(tzinfo=datetime.timezone.utc) if case.get("aware") else t_)
+                t_ = t_.replace(tzinfo=datetime.timezone.utc) if case.get("aware") else t_
+                res_t = fc.scale_to_test_date(t_) if len(enc_calls) % 2 else fc.scale_to_test_date(test_datetime=t_)
         except Exception as e:
             run.oracle_failure(case, f"{op} raised {type(e).__name__}: {e}")
             return
         if op[0] == "s" and op[1].startswith("arr:"):
             v = array_factor(op[1], base.shape)
+            if isinstance(v, numpy.ndarray):
+                OWNED.append((v, v.copy(), "an ndarray handed to scale()"))
             res = fc.scale(v)
             factor = numpy.array(v)
             state["array_factor"] = True
@@ -1125,10 +1267,15 @@ def run_case(run, drv, pending, case, tmpdir, tag, tier_quick=True):
             enc_aops.append(enc_factor(v))      # ... the array-factor model (c11_arr) is
             run.count("op:scale-by-ndarray:" + op[1].split(":")[1])
         elif op[0] == "s":
-            v = int(op[1][4:]) if op[1].startswith("int:") else fh(op[1])
-            res = fc.scale(v)
+            if op[1].startswith("kw:"):       # the factor handed over by keyword
+                v = fh(op[1][3:])
+                res = fc.scale(val=v)
+            else:
+                v = int(op[1][4:]) if op[1].startswith("int:") else fh(op[1])
+                res = fc.scale(v)
             factor = v
-            enc_ops.append("s," + frac(v))
+            # (an integer factor is converted to binary64 by numpy before the product: the model gets that double)
+            enc_ops.append("s," + frac(float(v) if isinstance(v, int) and abs(v) > 2 ** 53 else v))
             enc_aops.append(enc_ops[-1])
             run.count("op:scale")
         else:
@@ -1168,6 +1315,16 @@ def run_case(run, drv, pending, case, tmpdir, tag, tier_quick=True):
             return
     data = numpy.asarray(fc.data, dtype=float)
     tot, sc, mc = float(fc.sum()), numpy.asarray(fc.spatial_counts(), dtype=float), numpy.asarray(fc.magnitude_counts(), dtype=float)
+    if qtext is not None:
+        # the quadtree loader statement by statement, from the characters of the file (Model/QuadLoaders.lean): quadkeys in
+        # first-appearance order, magnitudes, the rate array as loaded
+        qi = drv.ask(("c11_qascii " if lay == "qascii" else "c11_qcsv ") + hexs(qtext))
+        qk_impl = [q.decode() if isinstance(q, bytes) else str(q) for q in getattr(fc.region, "quadkeys", [])]
+        QUAD_ASKS.append((case, qi, qk_impl, mags, [float(v) for v in base.ravel()]))
+    if case.get("oracle_only"):
+        run.count("judged by the oracle only (file beyond 2^16 rows)")
+        run.case(summary, None)
+        return
     # ---- model
     arr = None
     if state["array_factor"]:
@@ -1226,6 +1383,25 @@ def run_case(run, drv, pending, case, tmpdir, tag, tier_quick=True):
     run.case(summary, (tuple(tuple(r) for r in rows), json.dumps(case["ops"])) if nontriv else None)
 
 
+def fval(x):
+    """the factor as numpy multiplies with it: an integer beyond 2^53 is first converted to binary64"""
+    return Fraction(float(x)) if isinstance(x, int) and not isinstance(x, bool) and abs(x) > 2 ** 53 else Fraction(x)
+
+
+def run_case_w(run, drv, pending, case, tmpdir, tag, tier_quick=True):
+    """run_case; for one case in eight every numeric / user / future warning raised while the library works is an error
+    (DeprecationWarning is left alone: the catalog constructor of the unchanged tree calls datetime.utcnow())"""
+    import hashlib
+    import warnings
+    if int(hashlib.sha1(json.dumps(case["rows"][:3]).encode()).hexdigest()[:2], 16) % 8 == 0 or case.get("strict_warnings"):
+        run.count("run with RuntimeWarning / UserWarning / FutureWarning as errors")
+        with warnings.catch_warnings():
+            for cat_ in (RuntimeWarning, UserWarning, FutureWarning):
+                warnings.simplefilter("error", cat_)
+            return run_case(run, drv, pending, case, tmpdir, tag, tier_quick)
+    return run_case(run, drv, pending, case, tmpdir, tag, tier_quick)
+
+
 def rlist(s):
     return [] if s == "-" else [Fraction(t) for t in s.split(",")]
 
@@ -1262,6 +1438,23 @@ def obs_differs(kind, o, rec):
 
 def flush(run, drv, pending):
     out = drv.run()
+    for case, qi, keys, mags_, base_ in QUAD_ASKS:
+        run.count("quadtree loader: statement-level model asked")
+        o = out[qi]
+        if o in ("none", "bad-op") or o.count("|") != 2:
+            run.mismatch(case, "quadtree file loaded", o[:200])
+            continue
+        mk, mm, mb = o.split("|")
+        qd = []
+        if keys and mk.split(",") != keys:
+            qd.append(f"quadkeys impl {keys[:4]} model {mk.split(',')[:4]}")
+        if [Fraction(v) for v in mags_] != rlist(mm):
+            qd.append("magnitudes")
+        if [Fraction(v) for v in base_] != rlist(mb):
+            qd.append("rate array (order / values)")
+        if qd:
+            run.mismatch(case, qd, o[:300])
+    del QUAD_ASKS[:]
     for case, i, impl, band, hist, it, arr, date_asks in pending:
         o = out[i]
         for k, text_, got in date_asks:
@@ -1318,7 +1511,7 @@ def flush(run, drv, pending):
                     if d:
                         hd.append(d)
                         break
-                if not hd and fscale is not None and (not recs[-1].startswith("F:") or Fraction(recs[-1][2:]) != Fraction(fscale)):
+                if not hd and fscale is not None and (not recs[-1].startswith("F:") or Fraction(recs[-1][2:]) != fval(fscale)):
                     hd.append(f"factor after the history: impl {fscale!r} model {recs[-1]}")
             if hd:
                 run.mismatch(case, hd, out[ih][:300])
@@ -1353,7 +1546,7 @@ def flush(run, drv, pending):
             if (a == "x") != (b == "x") or (a != "x" and Fraction(a) != Fraction(b)):
                 diffs.append(f"probe {case['probes'][j]}: impl {a!r} model {b}")
                 break
-        if impl["factor"] is not None and Fraction(impl["factor"]) != Fraction(factor):
+        if impl["factor"] is not None and fval(impl["factor"]) != Fraction(factor):
             diffs.append(f"factor impl {impl['factor']!r} model {factor}")
         if not impl.get("approx") and [Fraction(v) for v in impl["data"]] != rlist(data):
             diffs.append("data (bit-exact base x factor)")
@@ -1470,6 +1663,7 @@ def run(run, rng, tier):
     drv, pending = Driver(), []
     n = 0
     LIVE.clear()
+    del QUAD_ASKS[:]
     # the text layer (decimal token -> double, repr -> decimal, int()) against the running Python / numpy
     run.extra["text_tokens_compared"] = c11_text.token_stream(run, rng, 1500 if tier == "quick" else 20000)
     run.extra["awaiting_decision"] = AWAITING_DECISION
@@ -1484,7 +1678,11 @@ def run(run, rng, tier):
             else:
                 run_case(run, drv, pending, c, tmp, "corpus%d" % n)
             n += 1
-        nfiles = 1000 if tier == "quick" else 10000
+        # sizes beyond 2^16 rows (quick: one file; thorough: six)
+        for _ in range(1 if tier == "quick" else 6):
+            run_case_w(run, drv, pending, gen_big_cart_case(rng, tier), tmp, "big%d" % n, tier_quick=(tier == "quick"))
+            n += 1
+        nfiles = 850 if tier == "quick" else 10000
         for _ in range(nfiles):
             k = rng.random()
             if k < 0.78:
@@ -1493,7 +1691,7 @@ def run(run, rng, tier):
                 case = gen_quad_case(rng, tier, "qascii")
             else:
                 case = gen_quad_case(rng, tier, "qcsv")
-            run_case(run, drv, pending, case, tmp, str(n), tier_quick=(tier == "quick"))
+            run_case_w(run, drv, pending, case, tmp, str(n), tier_quick=(tier == "quick"))
             n += 1
             if case["layout"] == "cart" and not case["malformed"] and rng.random() < 0.2:
                 run.count("sibling file: same cells, other magnitude bins")
@@ -1531,6 +1729,7 @@ def replay(run, payload):
     drv, pending = Driver(), []
     case = payload["case"]
     LIVE.clear()
+    del QUAD_ASKS[:]
     if isinstance(case, dict) and case.get("kind") in c11_text.TOKEN_KINDS:
         c11_text.replay_token(run, case)
         return
